@@ -55,6 +55,25 @@ type c11pConfig struct {
 	// simulated: the reliable broadcast (property C13) which the stand-in replaces makes it undeliverable.
 	Fault  string `json:"fault,omitempty"`
 	Faulty int    `json:"faulty,omitempty"`
+	// forged_source: the faulty node's (single, identical for all receivers) round-1 broadcast carries at position Pos >= 1
+	// an extra cast whose key claims share index Claim as source (another member, a non-member n+1). Receivers with an even
+	// index get it AFTER the genuine cast of the claimed member, odd ones BEFORE it.
+	Claim int `json:"claim,omitempty"`
+	Pos   int `json:"pos,omitempty"`
+}
+
+// c11pLastAttrib: result of the attribution monitor of the last ceremony ("" = every round-1 cast a node ended with
+// under source s is the one s broadcast).
+var c11pLastAttrib string
+
+func c11pFinger(b frost.Round1Bcast) string {
+	out := fmt.Sprintf("%x|%x", b.Wi.Bytes(), b.Ci.Bytes())
+	if b.Verifiers != nil {
+		for _, cm := range b.Verifiers.Commitments {
+			out += fmt.Sprintf("|%x", cm.ToAffineCompressed())
+		}
+	}
+	return out
 }
 
 const (
@@ -74,6 +93,22 @@ type c11pNet struct {
 	r1Ret []chan struct{}
 	r2Ret []chan struct{}
 	cbErr []string
+	sent  map[msgKey]string         // what every source really broadcast in round 1
+	got   map[int]map[msgKey]string // what every node's transport returned from Round1
+}
+
+// waitSeen blocks (bounded) until `kind` of node from was handed to node to.
+func (nw *c11pNet) waitSeen(kind string, from, to int) {
+	deadline := time.Now().Add(3 * time.Second)
+	for time.Now().Before(deadline) && nw.ctx.Err() == nil {
+		nw.mu.Lock()
+		ok := nw.seen[kind][to*1000+from]
+		nw.mu.Unlock()
+		if ok {
+			return
+		}
+		time.Sleep(time.Millisecond)
+	}
 }
 
 func (nw *c11pNet) intn(k int) int {
@@ -174,6 +209,15 @@ func (nw *c11pNet) dispatch(kind string, from, to int, deliver func()) {
 		} else if d > 0 {
 			time.Sleep(d)
 		}
+		if f := nw.cfg; f.Fault == "forged_source" && kind == c11pKindR1 && f.Claim >= 1 && f.Claim <= nw.n && f.Claim-1 != f.Faulty {
+			v := f.Claim - 1 // the member whose source id is claimed
+			switch {
+			case from == f.Faulty && to%2 == 0 && to != v:
+				nw.waitSeen(kind, v, to) // forged message after the genuine cast
+			case from == v && to%2 == 1 && to != f.Faulty:
+				nw.waitSeen(kind, f.Faulty, to) // genuine cast after the forged message
+			}
+		}
 		run()
 	}()
 }
@@ -185,6 +229,8 @@ type c11pTransport struct {
 	fault string // set on the faulty participant only
 	n     int
 	vals  int
+	nw    *c11pNet
+	self  int
 }
 
 // tamper applies the faulty participant's deviation to what it sends in round 1.
@@ -237,7 +283,22 @@ func (w c11pTransport) Round1(ctx context.Context, c map[msgKey]frost.Round1Bcas
 	if w.fault != "" {
 		c, s = w.tamper(c, s)
 	}
-	return w.inner.Round1(ctx, c, s)
+	w.nw.mu.Lock()
+	for k, v := range c { // what this node really broadcasts (after its own deviation, if it is the faulty one)
+		w.nw.sent[k] = c11pFinger(v)
+	}
+	w.nw.mu.Unlock()
+	rc, rs, err := w.inner.Round1(ctx, c, s)
+	if err == nil {
+		w.nw.mu.Lock()
+		m := map[msgKey]string{}
+		for k, v := range rc {
+			m[k] = c11pFinger(v)
+		}
+		w.nw.got[w.self] = m
+		w.nw.mu.Unlock()
+	}
+	return rc, rs, err
 }
 
 func (w c11pTransport) Round2(ctx context.Context, c map[msgKey]frost.Round2Bcast) (map[msgKey]frost.Round2Bcast, error) {
@@ -255,7 +316,7 @@ func c11pRun(t *testing.T, c *c11Ceremony) ([][]share.Share, error) {
 	}
 	ctx, cancel := context.WithTimeout(context.Background(), limit)
 	defer cancel()
-	nw := &c11pNet{n: n, cfg: *c.P2P, r: rand.New(rand.NewSource(c.OrderSeed)), ctx: ctx, seen: map[string]map[int]bool{}}
+	nw := &c11pNet{n: n, cfg: *c.P2P, r: rand.New(rand.NewSource(c.OrderSeed)), ctx: ctx, seen: map[string]map[int]bool{}, sent: map[msgKey]string{}, got: map[int]map[msgKey]string{}}
 
 	var (
 		hosts   = make([]host.Host, n)
@@ -330,9 +391,25 @@ func c11pRun(t *testing.T, c *c11Ceremony) ([][]share.Share, error) {
 						continue // reliable broadcast does not deliver to self
 					}
 					to := to
+					out := proto.Clone(msg)
+					if f := c.P2P; f.Fault == "forged_source" && from == f.Faulty && kind == c11pKindR1 {
+						// ONE payload for all receivers: the genuine casts plus, at position Pos >= 1, a cast claiming another source
+						if m, ok := out.(*pb.FrostRound1Casts); ok && len(m.Casts) > 0 {
+							forged, _ := proto.Clone(m.Casts[0]).(*pb.FrostRound1Cast)
+							forged.Key.SourceId = uint32(f.Claim)
+							pos := f.Pos
+							if pos < 1 {
+								pos = 1
+							}
+							if pos > len(m.Casts) {
+								pos = len(m.Casts)
+							}
+							m.Casts = append(m.Casts[:pos], append([]*pb.FrostRound1Cast{forged}, m.Casts[pos:]...)...)
+						}
+					}
 					nw.dispatch(kind, from, to, func() {
 						cbFail(fmt.Sprintf("bcast callback of node %d for %s of node %d", to, kind, from),
-							callbacks[to](ctx, hosts[from].ID(), msgID, proto.Clone(msg)))
+							callbacks[to](ctx, hosts[from].ID(), msgID, proto.Clone(out)))
 					})
 				}
 				return nil
@@ -357,7 +434,7 @@ func c11pRun(t *testing.T, c *c11Ceremony) ([][]share.Share, error) {
 					cancel()
 				}
 			}()
-			tp := c11pTransport{inner: tps[i], r1Ret: nw.r1Ret[i], r2Ret: nw.r2Ret[i], n: n, vals: c.Vals}
+			tp := c11pTransport{inner: tps[i], r1Ret: nw.r1Ret[i], r2Ret: nw.r2Ret[i], n: n, vals: c.Vals, nw: nw, self: i}
 			th := c.T
 			if c.P2P.Fault != "" && i == c.P2P.Faulty {
 				tp.fault = c.P2P.Fault
@@ -385,6 +462,24 @@ func c11pRun(t *testing.T, c *c11Ceremony) ([][]share.Share, error) {
 		return res, fmt.Errorf("ceremony does not terminate: a node is still inside runFrostParallel 10s after its context expired")
 	}
 	cancel()
+	// attribution monitor (routing_exact): a round-1 cast a node ends with under source s is the one s broadcast
+	c11pLastAttrib = ""
+	nw.mu.Lock()
+	for node := 0; node < n && c11pLastAttrib == ""; node++ {
+		for k, fp := range nw.got[node] {
+			want, ok := nw.sent[k]
+			switch {
+			case !ok:
+				c11pLastAttrib = fmt.Sprintf("node %d ends round 1 with a cast of validator %d attributed to source %d, which never broadcast one", node+1, k.ValIdx, k.SourceID)
+			case want != fp:
+				c11pLastAttrib = fmt.Sprintf("node %d ends round 1 with a cast of validator %d attributed to source %d that is NOT the one member %d broadcast", node+1, k.ValIdx, k.SourceID, k.SourceID)
+			}
+			if c11pLastAttrib != "" {
+				break
+			}
+		}
+	}
+	nw.mu.Unlock()
 	var first error
 	for i, err := range errs {
 		if err != nil && (first == nil || first.Error() == "context canceled") {
@@ -458,6 +553,22 @@ func TestVerifC11P2P(t *testing.T) {
 		if thorough {
 			pick = append(append([]string{"thr_plus1", "thr_plus1"}, faults...), "thr_minus1")
 		}
+		// forged source ids inside an otherwise genuine round-1 broadcast (every position, member / non-member claims)
+		forged := 2
+		if thorough {
+			forged = 10
+		}
+		for k := 0; k < forged; k++ {
+			n := 4 + k%2
+			th := 2 + r.Intn(n-1)
+			p := r.Perm(n)
+			claim := p[1] + 1
+			if k%5 == 4 {
+				claim = n + 1 // a non-member id
+			}
+			todo = append(todo, c11Ceremony{N: n, T: th, Vals: 2, OrderSeed: r.Int63(),
+				P2P: &c11pConfig{Class: "faulty", Fault: "forged_source", Faulty: p[0], Claim: claim, Pos: 1 + (k+int(seed))%2, Copies: 1}})
+		}
 		for k, f := range pick {
 			n := 4 + k%2
 			th := 2 + r.Intn(n-2) // t+1 <= n
@@ -480,6 +591,13 @@ func TestVerifC11P2P(t *testing.T) {
 		if c.P2P.Fault != "" {
 			// a faulty participant: the ceremony must fail, or end with one consistent t-of-n key on all nodes
 			out.Dist["p2p_fault_"+c.P2P.Fault]++
+			if c11pLastAttrib != "" {
+				out.Violations = append(out.Violations, c11Violation{Key: "frost:round1-cast-attributed-to-wrong-source",
+					What: fmt.Sprintf("real frostP2P transport, faulty member %d broadcasts ONE round-1 payload whose cast at position %d claims source id %d (n=%d, t=%d): the callback accepted it and %s",
+						c.P2P.Faulty+1, c.P2P.Pos, c.P2P.Claim, c.N, c.T, c11pLastAttrib), Replay: *c})
+				out.Ceremonies = append(out.Ceremonies, *c)
+				continue
+			}
 			if err != nil {
 				c.Err = "ceremony fails (as it may): " + err.Error()
 				out.Dist["p2p_faulty_ceremony_fails"]++
